@@ -6,6 +6,7 @@ use std::panic::{AssertUnwindSafe, catch_unwind};
 
 mod util;
 mod c08;
+mod c09;
 mod c14;
 mod c15;
 mod c20;
@@ -41,6 +42,7 @@ fn main() {
 fn dispatch(suite: &str, case: &Value) -> Value {
     match suite {
         "c08" => c08::run(case),
+        "c09" => c09::run(case),
         "c14" => c14::run(case),
         "c15" => c15::run(case),
         "c20" => c20::run(case),
